@@ -277,6 +277,12 @@ func (s *Error) UnmarshalXML(d *xml.Decoder, start xml.StartElement) error {
 			if err = d.Skip(); err != nil {
 				return err
 			}
+		default:
+			// An application specific condition (or anything else we do not know):
+			// step over it so that its end tag is not taken for ours.
+			if err = d.Skip(); err != nil {
+				return err
+			}
 		}
 	}
 }
